@@ -50,7 +50,7 @@ Print Assumptions C17_order_irrelevant.
 
 Example C17_nonvacuous :
   let ok := fun p => negb (Nat.eqb p 2%nat) in
-  loads (requests ok empty [0; 1; 0; 2; 1; 2; 0]%nat) = [0; 1; 2; 2]%nat /\ length loop_access = 93%nat /\ length registry_access = 12%nat.
+  loads (requests ok empty [0; 1; 0; 2; 1; 2; 0]%nat) = [0; 1; 2; 2]%nat /\ length loop_access = 93%nat /\ length registry_access = 16%nat.
 Proof. vm_compute. repeat split. Qed.
 
 (* deadlock, the part that involves mutexes: on the table of synchronisation events regenerated from eventloop.go (every lock
